@@ -166,6 +166,11 @@ def run(rep):
         '(harness/unit/h_expr.c)',
         cmdstatus.SIGNAL_NOTE,
         'fork/execvp/waitpid are the kernel\'s; the model sees fork and the wait status',
+        'C13_fd_hygiene / C13_fd_cloexec speak about Model.openFds (the descriptor table as a view of the trace); the tie to the '
+        'binary: tools/world.py maps an observed openat / open / fcntl / mkostemp / opendir to the constructors openRd / openExcl / '
+        'openPath / dupfd / mkostemp / opendir ONLY if its flags are exactly the close-on-exec form (opendir: FD_CLOEXEC of the '
+        'stream\'s descriptor, read back by the shim); any other form ends the call-by-call conformance; independently the '
+        'helper\'s /proc/self/fd record must be exactly 0, 1, 2 in every scenario',
     ])
     n = 150 if rep.tier == 'quick' else 12000
     seeds = [rng.randrange(1 << 30) for _ in range(n)]
